@@ -48,12 +48,19 @@ all), and every quick check was run on the unchanged tree with several `VERIF_SE
   (currently 0 on all of C09-C11, C14). Further implementation layers: `Scanner` (split function + driving loop +
   block reader, flags `CR_WAITS`, `CHECKS_ERR`, `BLOCK_LOOPS` naming the pinned vs. repaired behaviour), `Writers`
   (`SORTED`), `Conc` (`LEAKY`), `Session` (the file API and the tool as a state machine), `Teletext` (page
-  assembly). **Not built:** step-by-step transcriptions of the five text/binary reader loops. For C01-C05 the
-  specification holds the rendering relation, a *reference decoder written from the format description* and
-  model-checked against every rendering, and the writer contract. The reader loops are bound through the `verif`
-  hook events (`srt.line`, `vtt.line`, `ssa.line`, `stl.tti`) used by C20's schedule gate and C08's site list,
-  not through a refinement. What this loses: a counterexample is an input, not a model trace of the reader's
-  variables. What it does not lose: every verdict still comes from the real code.
+  assembly). **Reader loops:** `SrtCodec.ImplRead` is a line-by-line transcription of `ReadFromSRT` (pending
+  lines, index look-back, cut at the first blank line, running style) and `SrtMC` checks `ImplRefines`
+  (`ImplRead(D) = RefRead(D)` for every rendering of every truth); for WebVTT, SSA and STL the specification
+  holds the *control state* of the loop (block name / tag-stack depth / pending comments / cue count; section /
+  Format width / style and event rows; cue count and extension block number). All four are bound to the real
+  loops through the `verif` hook events (`srt.line`, `vtt.line`, `ssa.line`, `stl.tti`): the driver records
+  what the hook at the top of the loop saw on every line / block, and the trace specification requires the
+  recorded sequence to equal the model's (`ImplHooks(D)`), reporting `DRIFT` otherwise (0 on every event of
+  C01, C02, C04, C05). **Not built:** a content-level transcription of the WebVTT / SSA / TTML / STL readers (the
+  TTML reader is `encoding/xml`-driven and has no loop of its own to hook). For those the specification holds the
+  rendering relation, a *reference decoder written from the format description* and model-checked against every
+  rendering, and the writer contract; a counterexample there is an input, not a model trace of the reader's
+  variables. Every verdict still comes from the real code.
 * **Known-finding predicates** live in the trace specification that judges the event (`TraceStl`: `ReplaceCp`;
   `TraceSession`: `SwapAll`), not in a separate `Deviations.tla`.
 * **C16** is decided by TLC on the structured instant grid and the model-checked codec laws; the Apalache lemma
@@ -117,9 +124,11 @@ the SRT, WebVTT, SSA and STL reader loops). With the tag off `verifEmit` is an e
 
 %s
 
-All 23 are caught by the quick tier of the property they target. Six were missed or barely caught at first
-(C02-a, C04-a, C06-a, C13-b, C20-a and the digits-only pool of C01-a is what catches C01-a); in each case the
-*generator* was widened (never the oracle), as the table says.
+39 changes were written by sub-agents in four batches; 38 break their property and all 38 are caught by the quick
+tier of the property they target; one (C06-c) turned out to be an equivalent change and is, correctly, not
+flagged. Eleven were missed or barely caught at first (C02-a, C04-a, C06-a, C13-b, C20-a, C02-b, C04-b, C05-b,
+C19-b, C20-b; C13-b by one event only); in each case the *generator* was widened (never the oracle), as the table
+says, and the earlier seeds were re-run afterwards.
 
 ### 10.7 Binding self-test
 
